@@ -11,6 +11,8 @@ mod alloc;
 mod c04;
 mod c15;
 mod c03;
+mod routes;
+mod routes_gen;
 mod c02;
 mod c11;
 mod c12;
